@@ -50,7 +50,7 @@ def run(ctx):
     # 1. model checking.  Thorough: a separate run with small symbolic signatures over the full
     #    grid; quick: the scenario run below is itself a complete TLC run (all invariants of the cfg).
     if not ctx.quick:
-        mc_cfg = W.cfg_with(ctx, "MC_SignedValue.cfg", {"ArbLen": 6})
+        mc_cfg = W.cfg_with(ctx, "MC_SignedValue.cfg", {"ArbLen": 5})
         ctx.mc(W.SPEC_DIR, "SignedValue", os.path.relpath(mc_cfg, W.SPEC_DIR), required_actions=["Scenario", "ArbPut"],
                timeout=1500)
     # the version-1 format is refuted on the specification itself (F11)
@@ -58,8 +58,7 @@ def run(ctx):
            spec_violation_sig=lambda r, states: {"version": 1})
     # 2. spec -> code: every scenario with real signature lengths
     subs = ctx.pick({"ArbLen": 3, "EditBytes": "{48, 124, 58, 46}"},
-                    {"Names": "NamesB", "Values": "ValuesB", "Times": "{1, 1234567}",
-                     "EditBytes": "{48, 49, 124, 58, 97, 61, 45, 46}", "ArbLen": 5})
+                    {"Values": "ValuesB", "EditBytes": "{48, 49, 124, 58, 97, 61, 45, 46}", "ArbLen": 5})
     r, states = W.tlc_states(ctx, "SignedValue", W.cfg_with(ctx, "Gen_SignedValue.cfg", subs), count=True,
                              label="Gen_SignedValue.cfg", timeout=ctx.pick(900, 1500), coverage=True,
                              required_actions=["Scenario", "ArbPut"])
@@ -78,7 +77,7 @@ def run(ctx):
     ctx._phase("replay", t0)
     ctx.cov["exhaustive"] = True
     # 3. code -> spec: recorded sessions validated by TLC
-    n = ctx.pick(150, 6000)
+    n = ctx.pick(150, 2000)
     jobs = [(i + 1, ctx.seed * 1000003 + i, ctx.pick(14, 24)) for i in range(n)]
     t0 = time.time()
     traces = framework.pool_map(S.random_session, jobs)
